@@ -335,7 +335,7 @@ class CFG:
             self._cd = cd
         return self._cd
 
-    def control_conditions(self, nid: int, transitive: bool = True) -> List[Tuple[int, object]]:
+    def control_conditions(self, nid: int, transitive: bool = True, universal: bool = True) -> List[Tuple[int, object]]:
         """Guards in force when `nid` executes: the (transitive) control
         dependences whose controller dominates the dependent node.  The
         dominance filter drops loop-carried dependences ("the next iteration is
@@ -355,7 +355,7 @@ class CFG:
                 # that can leave early (assert / raise) makes the code after the join
                 # control dependent on the *other* branch as well, without that
                 # branch's condition holding on all paths
-                if nid != self.entry and self.exists_path_edges(self.entry, nid, forbidden_edges=[(c, lab)]):
+                if universal and nid != self.entry and self.exists_path_edges(self.entry, nid, forbidden_edges=[(c, lab)]):
                     seen.add((c, lab))
                     continue
                 seen.add((c, lab))
